@@ -20,7 +20,7 @@ func RegisterSchema(typ reflect.Type, s Schema) {
 	defer schemaRegistryMutex.Unlock()
 	verifPoint("schema.w.enter")
 	defer verifPoint("schema.w.leave")
-	schemaRegistry[typ] = s
+	schemaRegistry[typ] = s.clone()
 }
 
 // SchemaForType returns a Schema for the given type. It aims to produce a
@@ -43,7 +43,12 @@ func isInSchemaRegistry(typ reflect.Type) (Schema, bool) {
 	verifPoint("schema.r.enter")
 	defer verifPoint("schema.r.leave")
 	s, ok := schemaRegistry[typ]
-	return s, ok
+	if !ok {
+		return Schema{}, false
+	}
+	// Callers own the schemas they are given, so they get a copy: the slices
+	// and objects of a registered schema are not shared with the registry.
+	return s.clone(), true
 }
 
 func schemaForType(typ reflect.Type) (Schema, error) {
